@@ -331,7 +331,7 @@ func TestVerifC24(t *testing.T) {
 	defer rep.Finish()
 	vfInitEngine()
 	th := &Thread{}
-	n := vk.N(1500, 80000)
+	n := vk.N(5000, 80000)
 	const perDB = 30
 	if dc := os.Getenv("VERIF_DEBUG_CASE"); dc != "" { // developer aid: replay one database up to a statement
 		target, _ := strconv.Atoi(dc)
